@@ -124,6 +124,39 @@ def histories():
     return {'two clients: versions': h1, 'two clients: snapshots': h2, 'unknown client': h3, 'snapshot after snapshot': h4}
 
 
+def open_time_dml(prog):
+    """a synthetic function that executes, one call per statement, the INSERT/UPDATE/DELETE
+    statements found among the string constants of `SqliteStorage::new` (what the glue does to the
+    DATA when it opens a database); None if there are none"""
+    import mirlib
+    import qenv
+    cands = [f for n, f in prog.funcs.items() if n.endswith('::new') and 'SqliteStorage' in f.ret]
+    if len(cands) != 1:
+        return None
+    stmts = []
+    for m in re.finditer(r'const "((?:[^"\\]|\\.)*)"', cands[0].text):
+        sql = bytes(m.group(1), 'utf-8').decode('unicode_escape')
+        if not qenv.gen_sql.SQL_START.match(sql):
+            continue
+        try:
+            kind = qenv.gen_sql.parse(sql)[0]
+        except qenv.gen_sql.Unparsed as ex:
+            if re.match(r'^\s*(INSERT|UPDATE|DELETE)', sql, re.I):
+                raise Unsupported('open-time statement not modelled: %s (%s)' % (' '.join(sql.split())[:80], ex))
+            continue
+        if kind in ('insert', 'update', 'delete') and sql not in stmts:
+            stmts.append(sql)
+    if not stmts:
+        return None
+    f = mirlib.Func('verif::reopen', 'fn verif::reopen(_1: Conn)', '()')
+    f.args = [('_1', 'Conn')]
+    for i, sql in enumerate(stmts):
+        lit = '"' + sql.replace('\\', '\\\\').replace('"', '\\"').replace('\n', '\\n') + '"'
+        f.blocks['bb%d' % i] = ([], '_2 = verif_open_time_sql(copy _1, const %s) -> [return: bb%d, unwind continue];' % (lit, i + 1))
+    f.blocks['bb%d' % len(stmts)] = ([], 'return;')
+    return f
+
+
 def call_args(L, method, args):
     if method == 'set_snapshot':
         snap = Agg('Snapshot', 'Snapshot', 0, L.mk('snapshot', version_id=args[0], timestamp=args[1], versions_since=args[2]))
@@ -182,13 +215,24 @@ def run_history(task):
             out['obl'][label] = 'FAILURE'
             if len(out['violations']) < 40:
                 m = solver.model()
-                out['violations'].append((label, script_of_model(hist, m, len(st.hres))))
+                out['violations'].append((label, script_of_model(hist, m, len(st.hres), reopen=(backend != 'imem'))))
 
-        def explore(st, k):
+        reopen_fn = None
+        if backend != 'imem':
+            reopen_fn = open_time_dml(prog)
+            out['open_time_statements'] = len(reopen_fn.blocks) - 1 if reopen_fn else 0
+
+        def explore(st, k, reopened=False):
             if k == len(hist):
                 out['paths'] += 1
                 return
             method, cid, args = hist[k]
+            if reopen_fn is not None and not reopened and method.startswith('get_'):
+                # "the server was restarted here": whatever data-changing statements the glue issues
+                # when it opens the database run before the read (none on the pinned tree)
+                for (s2, _rv) in it.run_function(reopen_fn, [st.root.v], st):
+                    explore(s2, k, True)
+                return
             sp = st.spec
             # the reference's verdict for this call, on the state BEFORE it
             if method == 'new_client':
@@ -258,7 +302,7 @@ def run_history(task):
     return out
 
 
-def script_of_model(hist, m, upto):
+def script_of_model(hist, m, upto, reopen=False):
     """the history with the model's values, as a vreplay imem script (one transaction per call),
     followed by reads of everything"""
     def val(t):
@@ -275,7 +319,10 @@ def script_of_model(hist, m, upto):
         for x, t in zip(a, args):
             if t.size() == 128:
                 ids.add(x)
-        steps.append({'client': c, 'calls': [[method] + a] + ([['commit']] if method in ('new_client', 'add_version', 'set_snapshot') else [])})
+        step = {'client': c, 'calls': [[method] + a] + ([['commit']] if method in ('new_client', 'add_version', 'set_snapshot') else [])}
+        if reopen and method.startswith('get_'):
+            step['reopen'] = True
+        steps.append(step)
     for c in clients:
         calls = [['get_client']] + [['get_version', v] for v in sorted(ids)] + [['get_version_by_parent', v] for v in sorted(ids)] + [['get_snapshot_data', v] for v in sorted(ids)]
         steps.append({'client': c, 'calls': calls})
